@@ -183,7 +183,12 @@ def convert_version(
     ConvertVersionPass(target_version=target_version, fallback=fallback)(model)
 
     if model_proto is not None:
-        # Update the model proto in-place
+        # Update the model proto in-place: the graph, the functions and the opset imports
+        # (the converted graph is only valid together with the opset it was converted to)
+        new_proto = ir.to_proto(model)
         model_proto.graph.Clear()
         del model_proto.functions[:]
-        model_proto.graph.CopyFrom(ir.to_proto(model.graph))
+        model_proto.graph.CopyFrom(new_proto.graph)
+        model_proto.functions.extend(new_proto.functions)
+        del model_proto.opset_import[:]
+        model_proto.opset_import.extend(new_proto.opset_import)
